@@ -23,8 +23,22 @@ func c08Wire(t *rm.Type, w []byte) *ev.Violation {
 	if hostile {
 		return nil
 	}
+	if v := c08WireX(t, w, false); v != nil {
+		return v
+	}
+	// the same again, but between Decode and Encode the receive buffer is recycled (its memory overwritten, the
+	// buffer reset and refilled): the decoded message must still re-encode to the bytes that were consumed
+	if v := c08WireX(t, w, true); v != nil {
+		v.Detail = "receive buffer overwritten and reused between Decode and Encode: " + v.Detail
+		return v
+	}
+	return nil
+}
+
+func c08WireX(t *rm.Type, w []byte, recycle bool) *ev.Violation {
 	msg := bind.New(t)
-	buf := bytes.NewBuffer(append([]byte{}, w...))
+	src := append([]byte{}, w...)
+	buf := bytes.NewBuffer(src)
 	var derr error
 	var pan any
 	func() {
@@ -38,6 +52,13 @@ func c08Wire(t *rm.Type, w []byte) *ev.Violation {
 		return nil // not accepted
 	}
 	cons := len(w) - buf.Len()
+	if recycle {
+		for i := range src {
+			src[i] = 0xEE
+		}
+		buf.Reset()
+		buf.Write(src)
+	}
 	out := &bytes.Buffer{}
 	var eerr error
 	func() {
@@ -101,7 +122,7 @@ func c08Wire(t *rm.Type, w []byte) *ev.Violation {
 }
 
 func runC08(r *ev.Run, thorough bool) {
-	r.Rule = "per type: reference wires of V1 incl. non-canonical forms (over-long text cut, pad bytes everywhere, all-pad fields, stale computed fields) + every 1-byte substitution / insertion from {00,01,20,30,7F,80,FF} and every 1-byte deletion" + map[bool]string{true: " on every seed + every 2-byte substitution on the two base wires", false: " on the two base wires"}[thorough] + "; plus every strict prefix of the three base wires (Z, D, L); for each wire the library accepts: Encode(Decode(w)) == consumed bytes, differences allowed only inside self-computed fields which must then be correct; distinct = (type,wire); non-trivial = accepted by the decoder"
+	r.Rule = "per type: reference wires of V1 incl. non-canonical forms (over-long text cut, pad bytes everywhere, all-pad fields, stale computed fields) + every 1-byte substitution / insertion from {00,01,20,30,7F,80,FF} and every 1-byte deletion" + map[bool]string{true: " on every seed + every 2-byte substitution on the two base wires", false: " on the two base wires"}[thorough] + "; plus every strict prefix of the three base wires (Z, D, L); for each wire the library accepts: Encode(Decode(w)) == consumed bytes (also when the receive buffer is overwritten and reused between the two calls), differences allowed only inside self-computed fields which must then be correct; distinct = (type,wire); non-trivial = accepted by the decoder"
 	r.Assume("wires whose count/length prefix exceeds the input are explored by C09/C10 instead (resource-limited workers)")
 	parTypes(r, bind.Types, func(t *rm.Type, l *ev.Local) {
 		a, rj := int64(0), int64(0)
